@@ -180,6 +180,11 @@ func (r *QueryResponse) sendResponse(nr NodeResponse) error {
 	if r.closed {
 		return nil
 	}
+	// At most one response per node. Checked here, with the lock held, so
+	// that duplicates arriving concurrently cannot both pass the check.
+	if _, ok := r.responses[nr.From]; ok {
+		return nil
+	}
 	select {
 	case r.respCh <- nr:
 		r.responses[nr.From] = struct{}{}
@@ -196,6 +201,10 @@ func (r *QueryResponse) sendAck(nr *messageQueryResponse) error {
 	if r.closed {
 		return nil
 	}
+	// At most one ack per node, see sendResponse
+	if _, ok := r.acks[nr.From]; ok {
+		return nil
+	}
 	select {
 	case r.ackCh <- nr.From:
 		r.acks[nr.From] = struct{}{}
@@ -203,6 +212,22 @@ func (r *QueryResponse) sendAck(nr *messageQueryResponse) error {
 		return errors.New("serf: Failed to deliver query response, dropping")
 	}
 	return nil
+}
+
+// acked returns if an ack from the given node was already delivered
+func (r *QueryResponse) acked(from string) bool {
+	r.closeLock.Lock()
+	defer r.closeLock.Unlock()
+	_, ok := r.acks[from]
+	return ok
+}
+
+// responded returns if a response from the given node was already delivered
+func (r *QueryResponse) responded(from string) bool {
+	r.closeLock.Lock()
+	defer r.closeLock.Unlock()
+	_, ok := r.responses[from]
+	return ok
 }
 
 // NodeResponse is used to represent a single response from a node
